@@ -94,10 +94,8 @@ where
     if val == expected {
         Ok(())
     } else {
-        Err(Error::BadMagic {
-            pos,
-            found: Box::new(val) as _,
-        })
+        let _ = val;
+        Err(Error::NoVariantMatch { pos })
     }
 }
 
